@@ -16,10 +16,11 @@ import (
 // J.escape: value-set analysis of appendString over the 256 byte values.
 
 type byteEval struct {
-	info *types.Info
-	cObj types.Object // the loop byte variable
-	c    int64
-	hex  string
+	info   *types.Info
+	cObj   types.Object // the loop byte variable
+	strObj types.Object // the string parameter the bytes are taken from
+	c      int64
+	hex    string
 }
 
 // evalInt evaluates an integer expression in which the only variable is c.
@@ -128,6 +129,37 @@ func (e *byteEval) evalBool(x ast.Expr) (bool, bool) {
 	return false, false
 }
 
+// appendCall: the bytes `append(buf, ...)` adds.
+func (e *byteEval) appendCall(x ast.Expr, buf types.Object) ([]byte, bool) {
+	var out []byte
+	call, ok := x.(*ast.CallExpr)
+	if !ok {
+		return nil, false
+	}
+	fid, ok := call.Fun.(*ast.Ident)
+	if !ok || fid.Name != "append" || len(call.Args) < 2 {
+		return nil, false
+	}
+	if a0, ok := call.Args[0].(*ast.Ident); !ok || e.info.Uses[a0] != buf {
+		return nil, false
+	}
+	if call.Ellipsis.IsValid() {
+		v := constOf(e.info, call.Args[1])
+		if v == nil || v.Kind() != constant.String {
+			return nil, false
+		}
+		return append(out, constant.StringVal(v)...), true
+	}
+	for _, a := range call.Args[1:] {
+		b, ok := e.evalInt(a)
+		if !ok {
+			return nil, false
+		}
+		out = append(out, byte(b))
+	}
+	return out, true
+}
+
 // emit interprets a statement list for the current byte and returns the bytes
 // appended to the buffer variable.
 func (e *byteEval) emit(stmts []ast.Stmt, buf types.Object) ([]byte, bool) {
@@ -143,32 +175,24 @@ func (e *byteEval) emit(stmts []ast.Stmt, buf types.Object) ([]byte, bool) {
 			if !ok || (e.info.Uses[id] != buf && e.info.Defs[id] != buf) {
 				return nil, false
 			}
-			call, ok := s.Rhs[0].(*ast.CallExpr)
+			o, ok := e.appendCall(s.Rhs[0], buf)
 			if !ok {
 				return nil, false
 			}
-			fid, ok := call.Fun.(*ast.Ident)
-			if !ok || fid.Name != "append" || len(call.Args) < 2 {
+			out = append(out, o...)
+		case *ast.ReturnStmt:
+			// `return append(data, '"')` for `data = append(data, '"'); return data`
+			if len(s.Results) != 1 {
 				return nil, false
 			}
-			if a0, ok := call.Args[0].(*ast.Ident); !ok || e.info.Uses[a0] != buf {
-				return nil, false
-			}
-			if call.Ellipsis.IsValid() {
-				v := constOf(e.info, call.Args[1])
-				if v == nil || v.Kind() != constant.String {
-					return nil, false
-				}
-				out = append(out, constant.StringVal(v)...)
+			if id, ok := s.Results[0].(*ast.Ident); ok && e.info.Uses[id] == buf {
 				continue
 			}
-			for _, a := range call.Args[1:] {
-				b, ok := e.evalInt(a)
-				if !ok {
-					return nil, false
-				}
-				out = append(out, byte(b))
+			o, ok := e.appendCall(s.Results[0], buf)
+			if !ok {
+				return nil, false
 			}
+			out = append(out, o...)
 		case *ast.IfStmt:
 			if s.Init != nil {
 				return nil, false
@@ -194,12 +218,32 @@ func (e *byteEval) emit(stmts []ast.Stmt, buf types.Object) ([]byte, bool) {
 			}
 			out = append(out, o...)
 		case *ast.SwitchStmt:
-			if s.Init != nil || s.Tag == nil {
-				return nil, false
+			if s.Init != nil {
+				// switch c := v[i]; ... - the byte variable defined by the switch itself
+				as, ok := s.Init.(*ast.AssignStmt)
+				if !ok || as.Tok != token.DEFINE || len(as.Lhs) != 1 || len(as.Rhs) != 1 || e.strObj == nil {
+					return nil, false
+				}
+				ix, ok := as.Rhs[0].(*ast.IndexExpr)
+				if !ok {
+					return nil, false
+				}
+				if id, ok := ix.X.(*ast.Ident); !ok || e.info.Uses[id] != e.strObj {
+					return nil, false
+				}
+				lid, ok := as.Lhs[0].(*ast.Ident)
+				if !ok {
+					return nil, false
+				}
+				e.cObj = e.info.Defs[lid]
 			}
-			tag, ok := e.evalInt(s.Tag)
-			if !ok {
-				return nil, false
+			var tag int64
+			if s.Tag != nil {
+				var ok bool
+				tag, ok = e.evalInt(s.Tag)
+				if !ok {
+					return nil, false
+				}
 			}
 			var chosen, def *ast.CaseClause
 			for _, cs := range s.Body.List {
@@ -209,6 +253,17 @@ func (e *byteEval) emit(stmts []ast.Stmt, buf types.Object) ([]byte, bool) {
 					continue
 				}
 				for _, ce := range cc.List {
+					if s.Tag == nil {
+						// tagless switch: the first clause with a true condition
+						bv, ok := e.evalBool(ce)
+						if !ok {
+							return nil, false
+						}
+						if bv && chosen == nil {
+							chosen = cc
+						}
+						continue
+					}
 					v, ok := e.evalInt(ce)
 					if !ok {
 						return nil, false
@@ -316,6 +371,11 @@ func ruleJSONEscape(c *Ctx) {
 			c.Oblige("J.escape", false, s.Pos(), fn.Name(), "loop shape", "appendString ranges over runes or uses an unrecognised loop: undecided", nil)
 			return
 		case *ast.ReturnStmt:
+			if len(s.Results) == 1 {
+				if _, isCall := s.Results[0].(*ast.CallExpr); isCall && loop != nil {
+					post = append(post, st)
+				}
+			}
 		default:
 			if loop == nil {
 				pre = append(pre, st)
@@ -328,7 +388,7 @@ func ruleJSONEscape(c *Ctx) {
 		c.Oblige("J.escape", false, fn.Decl.Pos(), fn.Name(), "loop shape", "cannot find the byte loop: undecided", nil)
 		return
 	}
-	ev := &byteEval{info: info}
+	ev := &byteEval{info: info, strObj: str}
 	q1, ok1 := ev.emit(pre, buf)
 	q2, ok2 := ev.emit(post, buf)
 	c.Oblige("J.escape", ok1 && ok2 && string(q1) == `"` && string(q2) == `"`, fn.Decl.Pos(), fn.Name(), "string is wrapped in quotes",
@@ -339,26 +399,32 @@ func ruleJSONEscape(c *Ctx) {
 		c.Oblige("J.escape", false, loop.Pos(), fn.Name(), "loop body", "empty", nil)
 		return
 	}
-	as, ok := body[0].(*ast.AssignStmt)
-	if !ok || as.Tok != token.DEFINE || len(as.Lhs) != 1 {
-		c.Oblige("J.escape", false, loop.Pos(), fn.Name(), "loop body", "first statement is not c := v[i]: undecided", nil)
-		return
+	rest := body[1:]
+	if sw, isSw := body[0].(*ast.SwitchStmt); isSw && sw.Init != nil {
+		// switch c := v[i]; { ... }: emit binds the byte variable when it meets the switch
+		rest = body
+	} else {
+		as, ok := body[0].(*ast.AssignStmt)
+		if !ok || as.Tok != token.DEFINE || len(as.Lhs) != 1 {
+			c.Oblige("J.escape", false, loop.Pos(), fn.Name(), "loop body", "first statement is not c := v[i]: undecided", nil)
+			return
+		}
+		ix, ok := as.Rhs[0].(*ast.IndexExpr)
+		if !ok {
+			c.Oblige("J.escape", false, loop.Pos(), fn.Name(), "loop body", "first statement is not c := v[i]: undecided", nil)
+			return
+		}
+		if id, ok := ix.X.(*ast.Ident); !ok || info.Uses[id] != str {
+			c.Oblige("J.escape", false, loop.Pos(), fn.Name(), "loop body", "byte is not taken from the string parameter", nil)
+			return
+		}
+		ev.cObj = info.Defs[as.Lhs[0].(*ast.Ident)]
 	}
-	ix, ok := as.Rhs[0].(*ast.IndexExpr)
-	if !ok {
-		c.Oblige("J.escape", false, loop.Pos(), fn.Name(), "loop body", "first statement is not c := v[i]: undecided", nil)
-		return
-	}
-	if id, ok := ix.X.(*ast.Ident); !ok || info.Uses[id] != str {
-		c.Oblige("J.escape", false, loop.Pos(), fn.Name(), "loop body", "byte is not taken from the string parameter", nil)
-		return
-	}
-	ev.cObj = info.Defs[as.Lhs[0].(*ast.Ident)]
 	var bad []string
 	undecided := false
 	for b := 0; b < 256; b++ {
 		ev.c = int64(b)
-		out, ok := ev.emit(body[1:], buf)
+		out, ok := ev.emit(rest, buf)
 		if !ok {
 			undecided = true
 			break
